@@ -197,6 +197,24 @@ class Gen:
             inner[p] = s
         body = self.expr(inner, want, d - 1)
         args = [self.expr(env, s, d - 1) for s in shapes]
+        if r.random() < 0.2:
+            # python's other binding rules: the last parameter has a default (evaluated OUTSIDE the lambda) and the call omits it,
+            # overrides it positionally or by keyword; or the lambda takes *args / a keyword-only parameter
+            self.feat.add("called-lambda-default-parameter")
+            fn = lam(params, body)
+            form = r.choice(["omitted", "omitted", "positional", "keyword", "vararg", "kwonly"])
+            if form == "vararg":
+                fn.args.vararg = ast.arg(arg="rest_")
+                return ast.Call(func=fn, args=args + [C(7)], keywords=[])
+            if form == "kwonly":
+                fn.args.kwonlyargs, fn.args.kw_defaults, fn.args.args = [fn.args.args[-1]], [args[-1]], fn.args.args[:-1]
+                return ast.Call(func=fn, args=args[:-1], keywords=[] if r.random() < 0.5 else [ast.keyword(arg=params[-1], value=clone(args[-1]))])
+            fn.args.defaults = [args[-1]]
+            if form == "omitted":
+                return ast.Call(func=fn, args=args[:-1], keywords=[])
+            if form == "positional":
+                return ast.Call(func=fn, args=args, keywords=[])
+            return ast.Call(func=fn, args=args[:-1], keywords=[ast.keyword(arg=params[-1], value=clone(args[-1]))])
         if k == 2 and r.random() < self.called_kw:
             self.feat.add("called-lambda-kw")
             return ast.Call(func=lam(params, body), args=[args[0]], keywords=[ast.keyword(arg=params[1], value=args[1])])
